@@ -39,6 +39,11 @@ def main() -> None:
     run = Run("C16", "exploration")
     run.forbid()
     q = run.tier == "quick"
+    # the number-literal part of the property is a theorem over Text/Num.v, tied to the real readers and printers by K-num
+    run.require_vo(["Text/Num.v", "Text/NumProofs.v"])
+    run.props("Props/C16.v")
+    from knum import check_knum
+    check_knum(run, random.Random(f"C16-num-{run.seed}"), 1200 if q else 15000)
     k = 4 if q else 8
     texts = []
     for i in range(250 if q else 3000):
